@@ -1,7 +1,7 @@
 """C02 Emission / direct-image spectra equal the documented layered integral."""
 import ast
 
-from sa.helpers import (mkflow, spec, code, one, calls, bind_call, param_env,
+from sa.helpers import (must_be_unconditional, event_of, conditions, mkflow, spec, code, one, calls, bind_call, param_env,
                         loop_matches, fmt, atom_of, unparse, unalloc, call_kw,
                         inline_calls)
 from sa.index import AnalysisError, FuncInfo
@@ -201,9 +201,15 @@ def _run(ix, R):
                     if isinstance(x[0], ast.Assign)]
             node, val = one(init, 'initial assignment of the intensity')
             want = spec(fl, 'black_body(wngrid, T[0])/pi * exp(-S*mu)', b)
-            R.check('2.I0', 'ALG', site, stmt, fl.tab.equal(val, want),
-                    key='I0 = %s' % fmt(fl, val),
-                    detail='I0 = %s\n    expected %s' % (fmt(fl, val), fmt(fl, want)),
+            why0 = []
+            ie = event_of(fl, node)
+            if ie is not None:
+                must_be_unconditional(fl, ie, why0, 'the surface term', allow=[(code(fl, 'self.usingKTables'), False)])
+            if ie is not None and ie.loops:
+                why0.append('the surface term is set inside a loop')
+            R.check('2.I0', 'ALG', site, stmt, fl.tab.equal(val, want) and not why0,
+                    key='I0 = %s %s' % (fmt(fl, val), '; '.join(why0)),
+                    detail='I0 = %s %s\n    expected %s' % (fmt(fl, val), '; '.join(why0), fmt(fl, want)),
                     loc=f.loc(node), extracted=fmt(fl, val))
             stmt = ('I += B(T[layer])/pi * (exp(-layer_tau/mu) - exp(-(dtau+layer_tau)/mu)), '
                     'each transmittance clamped to 0 only when min(tau) >= clamp')
@@ -212,8 +218,11 @@ def _run(ix, R):
                             '_guard(min(D+L) < clamp, exp(-(D+L)*mu), 0))', b)
             alt = spec(fl, 'black_body(wngrid, T[layer])/pi * (exp(-L*mu) - exp(-(D+L)*mu))', b)
             ok = fl.tab.equal(au.value, want) or fl.tab.equal(au.value, alt)
-            R.check('2.I', 'ALG', site, stmt, ok, key='I += %s' % fmt(fl, au.value),
-                    detail='I += %s\n    expected %s' % (fmt(fl, au.value), fmt(fl, want)),
+            whyI = []
+            must_be_unconditional(fl, au, whyI, 'the layer term', allow=[(code(fl, 'self.usingKTables'), False)])
+            ok = ok and not whyI
+            R.check('2.I', 'ALG', site, stmt, ok, key='I += %s %s' % (fmt(fl, au.value), '; '.join(whyI)),
+                    detail='I += %s %s\n    expected %s' % (fmt(fl, au.value), '; '.join(whyI), fmt(fl, want)),
                     loc=f.loc(au.node), extracted=fmt(fl, au.value))
             # return roles
             r = [e for e in fl.of('return') if not e.guards or all(
@@ -267,7 +276,7 @@ def _run(ix, R):
                 nq = lg.args[0] if lg.args else None
                 okn = nq is not None and fl.tab.equal(nq, code(fl, 'self._ngauss'))
                 ng = st.get('self._ngauss')
-                okn = okn and ng is not None and fl.tab.equal(
+                okn = okn and ng is not None and not ng.guards and not lg.guards and fl.tab.equal(
                     ng.value, spec(fl, 'int(v)', param_env(fl, f, ['v'])))
                 R.check('3.order', 'ARG', site, 'leggauss order is the requested ngauss',
                         okn, key='leggauss(%s)' % fmt(fl, nq), detail='leggauss order is %s' % fmt(fl, nq),
@@ -275,7 +284,8 @@ def _run(ix, R):
             else:
                 pe = param_env(fl, f, ['x', 'w'])
                 x, w = pe['x'], pe['w']
-            ok = fl.tab.equal(mq.value, (x + 1) / 2) and fl.tab.equal(wq.value, w / 2)
+            ok = fl.tab.equal(mq.value, (x + 1) / 2) and fl.tab.equal(wq.value, w / 2) and \
+                not mq.guards and not wq.guards and not mq.loops and not wq.loops
             R.check('3.' + nm, 'ALG', site, stmt, ok,
                     key='nodes %s weights %s' % (fmt(fl, mq.value), fmt(fl, wq.value)),
                     detail='nodes = %s, weights = %s' % (fmt(fl, mq.value), fmt(fl, wq.value)),
@@ -322,7 +332,7 @@ def _run(ix, R):
                 detail='returns %s, expected %s' % (fmt(fl, r.value), fmt(fl, want)),
                 loc=f.loc(r.node), extracted=fmt(fl, r.value))
     site = D + '::DirectImageModel.compute_final_flux'
-    stmt = 'direct image flux is proportional to F * Rp^2 / d^2 (non-zero constant)'
+    stmt = 'direct image flux = F * 2 pi Rp^2 / (4 pi d^2) with d converted from parsec to metres'
     with R.guard('5.direct', 'ALG', site, stmt):
         f = ix.func(site)
         fl = mkflow(ix, site)
@@ -331,20 +341,22 @@ def _run(ix, R):
         r = one(fl.of('return'), 'return')
         want = spec(fl, 'F*Rp**2/d**2', b)
         c = fl.tab.proportional(r.value, want)
-        R.check('5.direct', 'ALG', site, stmt, c is not None and c > 0,
+        PC = 3.0856775814913673e16      # metres per parsec (IAU 2015)
+        okc = c is not None and c > 0 and abs(float(c) * 2 * PC * PC - 1) < 1e-6
+        R.check('5.direct', 'ALG', site, stmt, okc,
                 key='returns %s' % fmt(fl, r.value),
-                detail='returns %s, not a positive multiple of %s' % (fmt(fl, r.value), fmt(fl, want)),
+                detail='returns %s = %s x %s, expected the constant 1/(2 pc^2)' % (fmt(fl, r.value), c, fmt(fl, want)),
                 loc=f.loc(r.node), extracted='%s (constant %s)' % (fmt(fl, r.value), c))
     # star SED: black body on the same grid
     site = S + '::Star.initialize'
-    stmt = 'stellar SED = black_body(grid, star temperature) with the same Planck kernel'
+    stmt = 'stellar SED = black_body(grid, star temperature) with the same Planck kernel, recomputed on every initialize()'
     with R.guard('5.sed', 'ALG', site, stmt):
         f = ix.func(site)
         fl = mkflow(ix, site)
         st = one([e for e in fl.of('store') if fmt(fl, e.target) == 'self.sed'], 'store of sed')
         want = spec(fl, 'black_body(g, self._temperature)', param_env(fl, f, ['g']))
         same = ix.resolve_name(ix.module(S), 'black_body') is ix.resolve_name(ix.module(E), 'black_body')
-        R.check('5.sed', 'ALG', site, stmt, fl.tab.equal(st.value, want) and same,
+        R.check('5.sed', 'ALG', site, stmt, fl.tab.equal(st.value, want) and same and not st.guards and not st.loops,
                 key='sed = %s' % fmt(fl, st.value), detail='sed = %s' % fmt(fl, st.value),
                 loc=f.loc(st.node))
     from rules.common import model_pipeline
@@ -395,13 +407,19 @@ def _run(ix, R):
         if kt:
             ktable_terms(ix, R, kt, '7')
     site = E + '::EmissionModel.evaluate_emission'
-    stmt = 'k-table routine is selected exactly when opacity_method == ktables'
+    stmt = 'k-table routine is selected exactly when opacity_method == ktables, receives the same grid, and its result is returned'
     with R.guard('7.switch', 'DOM', site, stmt):
         f = ix.func(site)
         fl = mkflow(ix, site)
         kc = one(calls(fl, 'evaluate_emission_ktables'), 'dispatch call')
         ok = len(kc.guards) == 1 and kc.guards[0].positive and \
             fl.tab.equal(kc.guards[0].rf, code(fl, 'self.usingKTables'))
+        pe = param_env(fl, f, ['g', 'rc'])
+        ok = ok and len(kc.args) >= 1 and fl.tab.equal(kc.args[0], pe['g'])
+        # the dispatch result is what is returned
+        rr = [r for r in fl.of('return') if r.guards and r.guards[-1].node is kc.guards[-1].node and r.guards[-1].positive] if kc.guards else []
+        ok = ok and len(rr) == 1 and fl.tab.equal(
+            rr[0].value, fl.tab.atom('call', tuple(kc.args), extra=('fn:self.evaluate_emission_ktables',)))
         uf = mkflow(ix, E + '::EmissionModel.usingKTables')
         ur = one(uf.of('return'), 'return')
         ok2 = uf.tab.equal(ur.value, spec(uf, "GlobalCache()['opacity_method'] == 'ktables'"))
@@ -468,6 +486,48 @@ def ktable_terms(ix, R, kt, pfx='7'):
             dzok, key='path <- %s' % fmt(fl, gl['path']),
             detail='path is %s, the cross-section routine uses self.deltaz' % fmt(fl, gl['path']),
             loc=f.loc(kL.node))
+    # which contributions go through the k-distribution columns and which through contribute()
+    from sa.pattern import find
+    bnd, missing = find(f.node, [
+        "V_non = [V_c for V_c in self.contribution_list if not isinstance(V_c, V_mt)]"])
+    oksp = bnd is not None
+    if oksp:
+        # V_mt is AbsorptionContribution itself or a local bound to it
+        names = {bnd['V_mt']}
+        for n in ast.walk(f.node):
+            if isinstance(n, ast.Assign) and len(n.targets) == 1 and isinstance(n.targets[0], ast.Name) and \
+                    n.targets[0].id == bnd['V_mt']:
+                names.add(unparse(n.value))
+        oksp = 'AbsorptionContribution' in names
+        if not oksp:
+            missing = ['the split type is %s' % sorted(names)]
+        # the surface loop and both per-layer loops iterate that list
+        nonev = [e for e in fl.of('assign') if e.name == bnd['V_non']]
+        non = nonev[-1].value if nonev else code(fl, bnd['V_non'])
+        if len(nonev) != 1 or nonev[0].guards or nonev[0].loops:
+            oksp = False
+            missing = ['the non-molecule list is assigned %d times or conditionally' % len(nonev)]
+        its = [kt['surf'].loops[0].iter_rf[0]] + [e.loops[1].iter_rf[0] for e in kt['lay']]
+        if not all(fl.tab.equal(x, non) for x in its):
+            oksp = False
+            missing = ['contribute() loops iterate %s, not the non-molecule list' % sorted({fmt(fl, x) for x in its})]
+        # the molecule object is an element of contribution_list selected by that type
+        mol = [e for e in calls(fl, 'contribute') if e.loops and e.loops[0].kind == 'enumerate']
+        for e in mol:
+            rv = fmt(fl, e.recv_rf) if e.recv_rf is not None else ''
+            if 'self.contribution_list' not in rv or 'index(' not in rv:
+                oksp = False
+                missing = ['the k-table molecule object is %s' % rv]
+            # the k-distribution columns read that object's own opacities and weights
+            for p, a in (('sigma', 'sigma_xsec'), ('weights', 'weights')):
+                if fmt(fl, gl[p]) not in ('%s.%s' % (rv, a), 'getattr(%s, %s)' % (rv, a)):
+                    oksp = False
+                    missing = ['k-table %s is %s, not %s.%s' % (p, fmt(fl, gl[p]), rv, a)]
+    R.check(pfx + '.split', 'SIB', site,
+            'contributions are split by type: everything that is not an AbsorptionContribution goes through contribute(), '
+            'the AbsorptionContribution (if present) through the k-distribution columns',
+            oksp, key='; '.join(m[:60] for m in missing) or 'split on another type',
+            detail='no statements of the expected shape: %s' % missing, loc=f.loc())
     # I accumulation
     augs = [e for e in fl.of('aug') if e.loops == (kt['layer_loop'],) and e.op == 'Add'
             and e.value.mentions(lambda a: a.head == 'call' and a.extra and a.extra[0] == 'fn:black_body')]
@@ -484,9 +544,11 @@ def ktable_terms(ix, R, kt, pfx='7'):
                     '_guard(M, exp(-(D+L)*mu)*sum(exp(-(KD+KL)*mu)*wg, axis=-1), exp(-(D+L)*mu)))', b2)
     stmt = ('I += B(T[layer])/pi * (T_above - T_through) with the k-table transmittance '
             'sum_g w_g exp(-tau_g/mu) multiplied in, same Planck index as the cross-section routine')
-    R.check(pfx + '.I', 'SIB', site, stmt, fl.tab.equal(au.value, want),
-            key='I += %s' % fmt(fl, au.value),
-            detail='I += %s\n    expected %s' % (fmt(fl, au.value), fmt(fl, want)),
+    whyI = []
+    must_be_unconditional(fl, au, whyI, 'the layer term')
+    R.check(pfx + '.I', 'SIB', site, stmt, fl.tab.equal(au.value, want) and not whyI,
+            key='I += %s %s' % (fmt(fl, au.value), '; '.join(whyI)),
+            detail='I += %s %s\n    expected %s' % (fmt(fl, au.value), '; '.join(whyI), fmt(fl, want)),
             loc=f.loc(au.node), extracted=fmt(fl, au.value))
     r = one([e for e in fl.of('return') if isinstance(e.value_ast, ast.Tuple)], 'tuple return')
     _ret_roles(R, pfx + '.ret', site, fl, f, r, au.name)
@@ -519,9 +581,12 @@ def ktable_terms(ix, R, kt, pfx='7'):
             ok = ta is not None and ta.head == 'idx' and fl.tab.equal(ta.args[1], lp.index)
         if not ok:
             why.append('per-angle column is not added at its own angle index')
-        g = [x for x in e.guards if not x.early]
+        g = [x for x in e.guards]
         if len(g) != 1 or not g[0].positive or 'is not None' not in g[0].text():
             why.append('guards %s' % [x.text() for x in g])
+        for x in sts + rs[:1]:
+            if [y.node for y in x.guards] != [y.node for y in g]:
+                why.append('%s runs under %s' % (unparse(x.node), [y.text() for y in x.guards]))
     R.check(pfx + '.ksurf', 'SIB', site,
             'surface column of the k-table molecules: for each emission angle i, contribute(0, N, 0, 0, density, tmp, '
             'dz/mu_i) into a zeroed buffer, added to surface_tau[i]',
@@ -535,10 +600,17 @@ def ktable_terms(ix, R, kt, pfx='7'):
     arg = fl.tab.atoms[exps[0]].args[0] if exps else None
     # exponent is -(surface_tau after scaling by 1/mu and the per-angle additions): a phi of surface_tau
     ok0 = ok0 and arg is not None and fl.tab.equal(-arg, kt['S'] * b['mu'])
+    why0 = []
+    ie = event_of(fl, node)
+    if ie is not None:
+        must_be_unconditional(fl, ie, why0, 'the surface term')
+        if ie.loops:
+            why0.append('the surface term is set inside a loop')
     R.check(pfx + '.kI0', 'SIB', site, 'I0 = B(T[0])/pi * exp(-surface column) with the column already divided by mu',
-            ok0, key='I0 = %s' % fmt(fl, val), detail='I0 = %s' % fmt(fl, val), loc=f.loc(node))
+            ok0 and not why0, key='I0 = %s %s' % (fmt(fl, val), '; '.join(why0)),
+            detail='I0 = %s %s' % (fmt(fl, val), '; '.join(why0)), loc=f.loc(node))
     sc = [x for x in fl.of('assign') if x.name == 'surface_tau' and x.op is None and not x.loops]
-    oks = any(fl.tab.equal(x.value, kt['S'] * b['mu']) for x in sc)
+    oks = any(fl.tab.equal(x.value, kt['S'] * b['mu']) and not x.guards for x in sc)
     R.check(pfx + '.kscale', 'SIB', site, 'the non-molecule surface column is divided by mu once (surface_tau * (1/mu))',
             oks, key='scale %s' % [fmt(fl, x.value) for x in sc], detail='%s' % [fmt(fl, x.value) for x in sc], loc=f.loc())
 
@@ -588,4 +660,16 @@ EQUIVALENTS = [
      'return 2e-06 * PI * PLANCK * SPDLIGT * SPDLIGT / (wl ** 5 * (np.exp(PLANCK * SPDLIGT / (KBOLTZ * temp * wl)) - 1.0))'),
     ('emis-temp-inline', E, "I += BB * (layer_tau_calc - dtau_calc)\n        self.debug('I: %s', I)\n        return (I, _mu, _w, tau)\n\n    def path_integral",
      "I += BB * layer_tau_calc - dtau_calc * BB\n        self.debug('I: %s', I)\n        return (I, _mu, _w, tau)\n\n    def path_integral"),
+]
+# statements that implement an unconditional part of the documented behaviour: wrapped in an `if`
+# (so that they may be skipped) each must be reported - generated and checked by the thorough tier
+UNCONDITIONAL = [
+    ('taurex/model/emission.py', 'I = BB * np.exp(-surface_tau * _mu)'),
+    ('taurex/model/emission.py', 'I = BB * np.exp(-surface_tau)'),
+    ('taurex/model/emission.py', 'surface_tau = surface_tau * _mu'),
+    ('taurex/model/emission.py', 'surface_tau[idx] += tmp_tau[0]'),
+    ('taurex/model/emission.py', 'self._mu_quads = (mu + 1) / 2', 0),
+    ('taurex/model/emission.py', 'self._mu_quads = (mu + 1) / 2', 1),
+    ('taurex/data/stellar/star.py', 'self.sed = black_body('),
+    ('taurex/model/simplemodel.py', 'self.initialize_profiles()', 1),
 ]
